@@ -209,11 +209,37 @@ func (fv *FuncVC) callWithContractEnv(x *ssa.Call, cc *FuncContract, extra map[s
 	}
 	// ghost assertions of the caller's contract attached to calls of this callee
 	if fv.c != nil {
+		// call sites of one callee are numbered in source order
+		occ := 0
+		if len(fv.c.Before) > 0 {
+			for _, blk := range fv.fn.Blocks {
+				for _, ins := range blk.Instrs {
+					if call, ok := ins.(*ssa.Call); ok && call.Pos() <= x.Pos() {
+						if c2 := fv.calleeContract(&call.Call); c2 != nil && c2.Key() == cc.Key() {
+							occ++
+						}
+					}
+				}
+			}
+		}
 		for k, b := range fv.c.Before {
+			if b.Occ != 0 && b.Occ != occ {
+				continue
+			}
 			if b.Callee == calleeName || b.Callee == cc.TargetPkg+"."+cc.Name || strings.HasSuffix(cc.Key(), "."+b.Callee) {
 				env := fv.specEnv(fv.st)
+				// inside a loop: the loop's key and carried variables (values at the head of the current iteration)
+				var inner *loopInfo
+				for _, li := range fv.loopList {
+					if li.body[x.Block()] && li.spec != nil && (inner == nil || inner.body[li.head]) {
+						inner = li
+					}
+				}
+				if inner != nil {
+					env = fv.loopEnv(inner, fv.st, func(phi *ssa.Phi) Term { return fv.val(phi) })
+				}
 				env.postAlloc = fv.curAlloc()
-				fv.bindLocals(env, x.Block(), fv.st)
+				fv.bindLocalsAt(env, x.Block(), fv.st, x)
 				fv.oblige("assert", fmt.Sprintf("assert@call:%s:%d", calleeName, k), fv.props(), env.withPol(1).trBool(b.E), x.Pos(),
 					fmt.Sprintf("before calling %s: %s", calleeName, exprString(b.E)))
 			}
